@@ -1,5 +1,21 @@
-(** Judge for controlled schedules on the registry + adapter transport (C01, C06, C13):
-    every logged event must be enabled in Model/Registry.v and have exactly the observed effect. *)
+(** Judge for controlled schedules on the registry + adapter / NATS transport (C01, C06, C13):
+    every logged event must be enabled in Model/Registry.v (for the transport kind of the case) and
+    have exactly the observed effect.
+
+    case  = [kind (0 adapter, 1 NATS), op ids, deadline flags, data kinds (0 normal, 1 empty, 2 oversize),
+             events, registry size at the end, fresh request served]
+    event = [k, a, b, c]:
+      1 ERegister   a=caller b=effect (0 registered and parked, 1 Register error returned, 2 empty frame: nil,nil)
+      2 ERelease    a=caller b=effect (0 entered the select, 1 oversize detected)
+      3 ESendOk / 4 ESendFail a=caller
+      5 EArrive     a=op id index (-1 unknown) b=tag c=found
+      6 EDeliver    a=1 delivered / 0 dropped
+      7 ETake       a=caller b=1 result / 2 timeout / 3 send error
+      8 EUnregister a=caller b=outcome (1 ok, 2 timed out, 3 send/publish error, 5 not available, 6 too large) c=tag
+      9 ENotOpen    a=caller
+     10 EPublishFail a=caller
+     11 EArrive503  a=op id index (-1 unknown) c=found
+     12 a message the inbound path discards before dispatch (no model step; the reader must be idle) *)
 From Coq Require Import ZArith List Bool Arith.
 From FV Require Import Model.Registry Judge.Wire.
 Import ListNotations.
@@ -13,85 +29,88 @@ Definition took_of (z : Z) : option took :=
 
 Definition check_outcome (s : st) (i : nat) (out tag : Z) : bool :=
   match c_phase (callers s i) with
-  | CDone (OOk f) => (out =? 1) && (f_tag f =? tag) && (f_op f =? c_op (callers s i))
+  | CDone (OOk f) => (out =? 1) && (f_tag f =? tag) && (f_op f =? c_op (callers s i)) && negb (tag =? na_tag)
   | CDone OTimedOut => out =? 2
   | CDone OSendErr => out =? 3
+  | CDone ONotAvail => out =? 5
+  | CDone OTooLarge => out =? 6
   | _ => false
   end.
 
-Fixpoint replay (ops : list Z) (s : st) (evs : list tok) (n : Z) : Z :=
+Definition op_of (ops : list Z) (a : Z) : Z := if a <? 0 then -1 else nthz ops (zn a).
+
+Definition ev_of (ops : list Z) (k a b : Z) : option ev :=
+  if k =? 1 then Some (ERegister (zn a))
+  else if k =? 2 then Some (ERelease (zn a))
+  else if k =? 3 then Some (ESendOk (zn a))
+  else if k =? 4 then Some (ESendFail (zn a))
+  else if k =? 5 then (if b <? 0 then None else Some (EArrive {| f_op := op_of ops a; f_tag := b |}))
+  else if k =? 6 then Some EDeliver
+  else if k =? 7 then option_map (ETake (zn a)) (took_of b)
+  else if k =? 8 then Some (EUnregister (zn a))
+  else if k =? 9 then Some (ENotOpen (zn a))
+  else if k =? 10 then Some (EPublishFail (zn a))
+  else if k =? 11 then Some (EArrive503 (op_of ops a))
+  else None.
+
+Definition looked (s : st) : Z := match rd s with RLooked _ _ => 1 | RIdle => 0 end.
+
+(** the observed effect of event [k a b c] taking [s] to [s'] *)
+Definition effect_ok (s s' : st) (k a b c : Z) : bool :=
+  if k =? 1 then
+    match c_phase (callers s' (zn a)) with
+    | CParked => b =? 0 | CDone ORegErr => b =? 1 | CDone OEmpty => b =? 2 | _ => false
+    end
+  else if k =? 2 then
+    match c_phase (callers s' (zn a)) with
+    | CSelect => b =? 0 | CTook TTooLarge _ => b =? 1 | _ => false
+    end
+  else if (k =? 5) || (k =? 11) then looked s' =? c
+  else if k =? 6 then
+    match rd s with
+    | RLooked j _ => (match c_chan (callers s j) with [] => 1 | _ => 0 end) =? a
+    | RIdle => false
+    end
+  else if k =? 8 then check_outcome s' (zn a) b c
+  else true.
+
+Fixpoint replay (tk : kind) (ops : list Z) (s : st) (evs : list tok) (n : Z) : option (st * Z) :=
   match evs with
-  | [] => n
+  | [] => Some (s, n)
   | t :: rest =>
     let f := as_list t in
     let k := as_int (nth_tok 0 f) in
     let a := as_int (nth_tok 1 f) in
     let b := as_int (nth_tok 2 f) in
     let c := as_int (nth_tok 3 f) in
-    let r : option st :=
-      if k =? 1 then step false s (ERegister (zn a))
-      else if k =? 2 then step false s (ERelease (zn a))
-      else if k =? 3 then step false s (ESendOk (zn a))
-      else if k =? 4 then step false s (ESendFail (zn a))
-      else if k =? 5 then
-        let fr := {| f_op := if a <? 0 then -1 else nthz ops (zn a); f_tag := b |} in
-        match step false s (EArrive fr) with
-        | Some s' => let found := match rd s' with RLooked _ _ => 1 | RIdle => 0 end in
-                     if found =? c then Some s' else None
-        | None => None
-        end
-      else if k =? 6 then
-        match rd s with
-        | RLooked j _ =>
-          let delivered := match c_chan (callers s j) with [] => 1 | _ => 0 end in
-          if delivered =? a then step false s EDeliver else None
-        | RIdle => None
-        end
-      else if k =? 7 then
-        match took_of b with Some t => step false s (ETake (zn a) t) | None => None end
-      else if k =? 8 then
-        match step false s (EUnregister (zn a)) with
-        | Some s' => if check_outcome s' (zn a) b c then Some s' else None
-        | None => None
-        end
-      else None in
-    match r with
-    | Some s' => replay ops s' rest (n + 1)
-    | None => -1
+    if k =? 12 then (if looked s =? 0 then replay tk ops s rest (n + 1) else None) else
+    match ev_of ops k a b with
+    | Some e =>
+      match step tk false s e with
+      | Some s' => if effect_ok s s' k a b c then replay tk ops s' rest (n + 1) else None
+      | None => None
+      end
+    | None => None
     end
   end.
+
+Definition dkind_of (z : Z) : dkind := if z =? 1 then DEmpty else if z =? 2 then DTooLarge else DNormal.
 
 (** after the whole log: registry size as observed, and the fresh request was served *)
 Definition judge_case (t : tok) : Z :=
   let f := as_list t in
-  let ops := map as_int (as_list (nth_tok 0 f)) in
-  let dls := map as_int (as_list (nth_tok 1 f)) in
-  let evs := as_list (nth_tok 2 f) in
-  let reglen := as_int (nth_tok 3 f) in
-  let fresh := as_int (nth_tok 4 f) in
-  let s0 := init (fun i => nthz ops i) (fun i => negb (nthz dls i =? 0)) (length ops) in
-  (* replay returns the count; recompute the final state for the registry-size check *)
-  let n := replay ops s0 evs 0 in
-  if n <? 0 then -1 else
-  let final := (fix go (s : st) (evs : list tok) : st :=
-                  match evs with
-                  | [] => s
-                  | t :: rest =>
-                    let f := as_list t in
-                    let k := as_int (nth_tok 0 f) in
-                    let a := as_int (nth_tok 1 f) in
-                    let b := as_int (nth_tok 2 f) in
-                    let e := if k =? 1 then Some (ERegister (zn a)) else if k =? 2 then Some (ERelease (zn a))
-                             else if k =? 3 then Some (ESendOk (zn a)) else if k =? 4 then Some (ESendFail (zn a))
-                             else if k =? 5 then Some (EArrive {| f_op := if a <? 0 then -1 else nthz ops (zn a); f_tag := b |})
-                             else if k =? 6 then Some EDeliver
-                             else if k =? 7 then option_map (ETake (zn a)) (took_of b)
-                             else if k =? 8 then Some (EUnregister (zn a)) else None in
-                    match e with
-                    | Some e => match step false s e with Some s' => go s' rest | None => s end
-                    | None => s
-                    end
-                  end) s0 evs in
-  if (Z.of_nat (length (reg final)) =? reglen) && (fresh =? 1) then n else -1.
+  let tk := if as_int (nth_tok 0 f) =? 1 then KNats else KAdapter in
+  let ops := map as_int (as_list (nth_tok 1 f)) in
+  let dls := map as_int (as_list (nth_tok 2 f)) in
+  let dks := map as_int (as_list (nth_tok 3 f)) in
+  let evs := as_list (nth_tok 4 f) in
+  let reglen := as_int (nth_tok 5 f) in
+  let fresh := as_int (nth_tok 6 f) in
+  let s0 := initd (fun i => nthz ops i) (fun i => negb (nthz dls i =? 0))
+                  (fun i => dkind_of (nth i dks 0)) (length ops) in
+  match replay tk ops s0 evs 0 with
+  | Some (final, n) => if (Z.of_nat (length (reg final)) =? reglen) && (fresh =? 1) then n else -1
+  | None => -1
+  end.
 
 Definition judge (cases : list tok) : list Z := map judge_case cases.
